@@ -186,7 +186,10 @@ func (d *downloaderFEP) populateGreatestInjectedGER(b *sync.EVMBlock, gerInfos [
 	for _, gerInfo := range gerInfos {
 		attempts := 0
 		for {
-			blockHashOrTimestamp, err := d.l2GERManager.GlobalExitRootMap(&bind.CallOpts{Pending: false}, gerInfo.GlobalExitRoot)
+			// read the contract as of the block the result is attributed to (not "latest", which may be
+			// ahead of it and may be reorged away without this block being affected)
+			blockHashOrTimestamp, err := d.l2GERManager.GlobalExitRootMap(
+				&bind.CallOpts{Pending: false, BlockNumber: new(big.Int).SetUint64(b.Num)}, gerInfo.GlobalExitRoot)
 			if err != nil {
 				attempts++
 				log.Errorf("failed to check if global exit root %s is injected on L2: %s", gerInfo.GlobalExitRoot.Hex(), err)
